@@ -7,6 +7,7 @@ require (
 	github.com/jech/galene v0.0.0
 	github.com/pion/interceptor v0.1.45
 	github.com/pion/rtcp v1.2.17
+	github.com/pion/rtp v1.10.4
 	github.com/pion/webrtc/v4 v4.2.17
 )
 
@@ -23,7 +24,6 @@ require (
 	github.com/pion/logging v0.2.4 // indirect
 	github.com/pion/mdns/v2 v2.1.0 // indirect
 	github.com/pion/randutil v0.1.0 // indirect
-	github.com/pion/rtp v1.10.4 // indirect
 	github.com/pion/sctp v1.11.0 // indirect
 	github.com/pion/sdp/v3 v3.0.19 // indirect
 	github.com/pion/srtp/v3 v3.0.12 // indirect
